@@ -35,6 +35,7 @@ type FileSpec struct {
 	Rel  string `json:"rel"`
 	Size int64  `json:"size"` // -1: directory
 	Link string `json:"link,omitempty"` // when set: a symbolic link with this target (relative to the link's directory), Size ignored
+	Zero [][2]int64 `json:"zero,omitempty"` // byte ranges [from, to) that hold zeros (holes of a disk image, padding)
 }
 
 // MakeTree materialises specs under root with seeded contents.
@@ -66,6 +67,11 @@ func MakeTree(root string, specs []FileSpec, seed int64) error {
 		for i := range buf {
 			if buf[i] == 0 {
 				buf[i] = byte(1 + i%250)
+			}
+		}
+		for _, z := range s.Zero {
+			for i := z[0]; i < z[1] && i < int64(len(buf)); i++ {
+				buf[i] = 0
 			}
 		}
 		if err := os.WriteFile(p, buf, 0644); err != nil {
@@ -147,6 +153,11 @@ type Config struct {
 	Seed       int64         `json:"seed"`
 	VerifyTail uint32        `json:"tail"`
 	CtlYield   bool          `json:"ctlYield,omitempty"`   // vnet: the sender yields after every write on the control stream
+	SenderHash string        `json:"senderHash,omitempty"` // sender's Options.HashAlg ("" = default)
+	DataLag    time.Duration `json:"dataLag,omitempty"`    // vlag: quiet period on the control stream before data arrives
+	CtlBackLag time.Duration `json:"ctlBackLag,omitempty"` // vquic / vlag: the receiver's control records arrive this much later
+	DataWriteDelay   time.Duration `json:"dataWriteDelay,omitempty"`   // vnet: every data-stream write of the sender takes this long
+	ResumeStatsDelay time.Duration `json:"resumeStatsDelay,omitempty"` // the sender's ResumeStatsFn callback (a status line, a log write) takes this long
 	SmallBelow int64         `json:"smallBelow,omitempty"` // scheduler: files below this many bytes count as small (0: the default of 4 MiB)
 	Watchdog   time.Duration `json:"-"`
 	// faults (vnet only)
@@ -193,7 +204,7 @@ func openConns(cfg Config) (*connSet, error) {
 	switch cfg.Transport {
 	case "mock", "vquic", "vlag":
 		for i := 0; i < n; i++ {
-			p := vnet.NewPair(vnet.Options{Mock: cfg.Transport == "mock", Hold: cfg.Transport != "mock", AutoRelease: cfg.Transport != "mock", LagData: cfg.Transport == "vlag", YieldOnCtl: cfg.CtlYield, Seed: cfg.Seed + int64(i)})
+			p := vnet.NewPair(vnet.Options{Mock: cfg.Transport == "mock", Hold: cfg.Transport != "mock", AutoRelease: cfg.Transport != "mock", LagData: cfg.Transport == "vlag", YieldOnCtl: cfg.CtlYield, DataLag: cfg.DataLag, CtlBackLag: cfg.CtlBackLag, DataWriteDelay: cfg.DataWriteDelay, Seed: cfg.Seed + int64(i)})
 			cs.pairs = append(cs.pairs, p)
 			sc = append(sc, p.End(vnet.A))
 			rc = append(rc, p.End(vnet.B))
@@ -365,7 +376,11 @@ func Run(cfg Config, srcRoot, outDir string) (Outcome, error) {
 	rctx, rcancel := context.WithCancel(context.Background())
 	defer scancel()
 	defer rcancel()
-	sopts := transfer.Options{ChunkSize: cfg.ChunkSize, ParallelFiles: cfg.Streams, Resume: cfg.Resume, ResumeVerifyTail: cfg.VerifyTail, NoRootDir: cfg.NoRootDir, SmallThreshold: cfg.SmallBelow}
+	sopts := transfer.Options{ChunkSize: cfg.ChunkSize, ParallelFiles: cfg.Streams, Resume: cfg.Resume, ResumeVerifyTail: cfg.VerifyTail, NoRootDir: cfg.NoRootDir, SmallThreshold: cfg.SmallBelow, HashAlg: cfg.SenderHash}
+	if cfg.ResumeStatsDelay > 0 {
+		d := cfg.ResumeStatsDelay
+		sopts.ResumeStatsFn = func(string, uint32, uint32, uint32, int64, uint32) { time.Sleep(d) }
+	}
 	if cfg.ScanPaths {
 		base := filepath.Base(srcRoot)
 		sopts.ResolveFilePath = func(rel string) string {
